@@ -22,9 +22,15 @@ type TrackNoSelectorImpl struct {
 	trackNum int
 }
 
+// maxTrackNum is the largest track count the 16 bit field of a MIDI file header can declare.
+const maxTrackNum = 65535
+
 func NewTrackNoSelector(trackNum int) (*TrackNoSelectorImpl, error) {
 	if trackNum < 1 {
 		return nil, errorx.Invalid("TrackNoSelector requires positive trackNum, %d", trackNum)
+	}
+	if trackNum > maxTrackNum {
+		return nil, errorx.Invalid("TrackNoSelector requires trackNum up to %d, %d", maxTrackNum, trackNum)
 	}
 	return &TrackNoSelectorImpl{
 		trackNum: trackNum,
